@@ -295,6 +295,8 @@ impl Builder {
         match idx {
             Some(idx) => {
                 if idx < self.module.functions.len() {
+                    // block indices are relative to the selected function
+                    self.selected_block = None;
                     self.selected_function = Some(idx);
                     Ok(())
                 } else {
@@ -382,6 +384,7 @@ impl Builder {
             vec![],
         ));
         self.selected_function = None;
+        self.selected_block = None;
         Ok(())
     }
 
